@@ -8,10 +8,19 @@ interleaved by ANY schedule at lock-acquisition and `wake()` granularity. `Spec/
 the consumer's ghost state (`parked` on which waker, `woken` since). All theorems are by
 induction over schedule steps: no bound on program or schedule length.
 
+Scope notes. (1) A gzip `BodyWriter` reaches the chunker only through `Writer::write`,
+`Writer::flush`, `Writer::abort` and the writer's drop — each gzip operation is some finite
+sequence of those (the encoder's `write_all` loops, then a flush / the drop), i.e. an instance
+of a raw program; since the theorems hold for EVERY program, they cover gzip writers' traffic
+through the chunker. The harness checks that instantiation on the real code (`run_gz_suite`:
+gzip producers under the scheduler, model run on the chunker-level writes obtained from a
+reference encoder). (2) The quantifier's "wait-until-delivered" producer operation only
+RESTRICTS the interleavings (the producer is not scheduled until the consumer has drained the
+queue); theorems over all schedules include those.
+
 Assumed (DESIGN section 7): `std::sync::Mutex` mutual exclusion (a critical section is one atomic
 step), thread-local work commutes with the other thread's steps, a woken task is eventually
-polled by the executor. The quantifier's "wait-until-delivered" producer operation is not
-modelled.
+polled by the executor.
 -/
 import HttpServeModel.Lemmas.Wakeup
 
